@@ -289,11 +289,11 @@ def eds_model(rng, node_id=None, n_objects=14, dcf=False, index_ranges=((0x1002,
             if rng.random() < 0.8:
                 v.hi = b
         if relative and node_id is not None and dt in (R.UNSIGNED32, R.UNSIGNED16) and rng.random() < 0.3:
-            v.default_rel = rng.choice([0x180, 0x200, 0x600, 0x80, 1, 0])
+            v.default_rel = rng.choice([0x180, 0x200, 0x600, 0x80, 1, 0, 0x1CE, 0x40D, 0xDE, 0xED, 13, 14, rng.randint(0, 0x7FF), rng.randint(0, 0x7FF)])
             v.default = v.default_rel + node_id
             v.relative = True
             if dcf and rng.random() < 0.4:
-                v.value_rel = rng.choice([0x280, 0x300])
+                v.value_rel = rng.choice([0x280, 0x300, 0x2DE, 0x3ED, 0xD, rng.randint(0, 0x7FF)])
                 v.value = v.value_rel + node_id
         if dt in R.INTEGERS and rng.random() < 0.3:
             v.factor = rng.choice([0.5, 2.0, 0.001, 10.0, -1.5])
@@ -329,14 +329,20 @@ def eds_model(rng, node_id=None, n_objects=14, dcf=False, index_ranges=((0x1002,
             tmpl.lo = tmpl.hi = None
             tmpl.default_rel = tmpl.value_rel = None
             tmpl.relative = False
-            tmpl.value = None
+            if tmpl.value is not None and (tmpl.dt in (R.UNSIGNED32, R.UNSIGNED16) or rng.random() < 0.4):
+                tmpl.value = None if rng.random() < 0.5 else eds_value(rng, tmpl.dt)
             tmpl.factor, tmpl.unit, tmpl.description, tmpl.storage = 1, "", "", None
             if tmpl.default is not None and tmpl.dt in (R.UNSIGNED32, R.UNSIGNED16):
                 tmpl.default = eds_value(rng, tmpl.dt)
             members = {0: VarM(index, 0, "Number of entries", R.UNSIGNED8)}
             names = {s: name() for s in range(1, n + 1)} if rng.random() < 0.6 else None
+            if names is None:
+                # CiA 306 gives compact objects no per-member ParameterValue; only with a name list does the library document
+                # "only the name and subindex varies", so only there is a ParameterValue of the compact section judged
+                tmpl.value = None
             for s in range(1, n + 1):
                 v = VarM(index, s, names[s] if names else nm, tmpl.dt, tmpl.access, default=tmpl.default, pdo=tmpl.pdo)
+                v.value = tmpl.value          # a ParameterValue in the compact section describes every member, like DefaultValue
                 members[s] = v
             o = ObjM("array", index, nm, members, compact=True, compact_names=names)
             m.add(o)
